@@ -1179,6 +1179,75 @@ theorem log_exp_rot_blocks (eps : ℝ) :
     exact Real.log_exp _
 
 
+/-! ## pass 11: one statement for `Log (Exp x) = x` below π on so3; rxso3 near 0 -/
+
+/-- `Log (Exp ξ)` on rxso3 for every rotation by at most `eps` and every log-scale: rotation block `(1+δ)φ` with `|δ| ≤ θ⁴/50`, log-scale
+recovered exactly — with `se3_log_exp_small` and `sim3_log_exp_small` the clause "Log(Exp x) = x, angles dense near 0" holds on all
+four groups -/
+theorem rxso3_log_exp_small (eps : ℝ) (x : rxso3 ℝ) (h0 : 0 ≤ eps) (he1 : eps ≤ 1) (h : ¬ eps < x.phi.norm) :
+    ∃ δ : ℝ, rxso3LogExp eps x = ⟨x.phi.smul (1 + δ), x.sigma⟩ ∧ |δ| ≤ x.phi.normSq ^ 2 / 50 := by
+  obtain ⟨δ, hφ, hd⟩ := so3_log_exp_small eps x.phi h0 he1 h
+  refine ⟨δ, ?_, hd⟩
+  obtain ⟨h1, h2⟩ := (log_exp_rot_blocks eps).2.1 x
+  have : rxso3LogExp eps x = ⟨(rxso3LogExp eps x).phi, (rxso3LogExp eps x).sigma⟩ := rfl
+  rw [this, h1, h2, hφ]
+
+/-- norm form of the small-angle statements: `‖Log(Exp x) − x‖ ≤ θ⁵/50` on so3 for `θ ≤ eps ≤ 1` -/
+theorem so3_log_exp_small_norm (eps : ℝ) (x : Vec3 ℝ) (h0 : 0 ≤ eps) (he1 : eps ≤ 1) (h : ¬ eps < x.norm) :
+    ((so3LogExp eps x).sub x).norm ≤ x.norm ^ 5 / 50 := by
+  obtain ⟨δ, hφ, hd⟩ := so3_log_exp_small eps x h0 he1 h
+  have e : (so3LogExp eps x).sub x = x.smul δ := by rw [hφ]; ext <;> lie_unfold <;> ring
+  rw [e, Vec3.norm_smul]
+  have hn := Vec3.norm_nonneg x
+  have hns : x.normSq ^ 2 = x.norm ^ 4 := by rw [← Vec3.norm_sq]; ring
+  rw [hns] at hd
+  calc |δ| * x.norm ≤ x.norm ^ 4 / 50 * x.norm := mul_le_mul_of_nonneg_right hd hn
+    _ = x.norm ^ 5 / 50 := by ring
+/-- ONE statement for the clause "Log(Exp x) = x whenever the rotation angle is below π" on so3: for every `x` with `‖x‖ < π(1−eps)`
+(`0 ≤ eps ≤ 1/4`), through all branches of `so3_Exp` / `SO3_Log` (Taylor, gap band, exact band), `‖Log(Exp x) − x‖ ≤ ‖x‖⁵/40`
+(zero on the band `eps < sin(θ/2)`; at most `eps⁴·θ/40`-ish below). Within `π·eps` of π see `so3_log_exp_near_pi`. -/
+theorem so3_log_exp_below_pi (eps : ℝ) (x : Vec3 ℝ) (h0 : 0 ≤ eps) (he : eps ≤ 1 / 4) (hhi : x.norm < Real.pi * (1 - eps)) :
+    ((so3LogExp eps x).sub x).norm ≤ x.norm ^ 5 / 40 := by
+  have hn := Vec3.norm_nonneg x
+  have hp := Real.pi_pos
+  have hpi : x.norm < Real.pi := by nlinarith
+  have h5 : 0 ≤ x.norm ^ 5 := by positivity
+  by_cases h : eps < x.norm
+  · by_cases hs : eps < Real.sin (x.norm / 2)
+    · -- exact band
+      have hc : eps < Real.cos (x.norm / 2) := by
+        have h1 : 2 / Real.pi * (Real.pi / 2 - x.norm / 2) ≤ Real.sin (Real.pi / 2 - x.norm / 2) :=
+          Real.mul_le_sin (by linarith) (by linarith)
+        rw [Real.sin_pi_div_two_sub] at h1
+        have e : 2 / Real.pi * (Real.pi / 2 - x.norm / 2) = (Real.pi - x.norm) / Real.pi := by field_simp
+        rw [e] at h1
+        have : eps < (Real.pi - x.norm) / Real.pi := by rw [lt_div_iff₀ hp]; linarith
+        linarith
+      rw [so3_log_exp eps x h0 h hpi hs hc]
+      have : (x.sub x) = Vec3.zero := by ext <;> lie_unfold <;> ring
+      rw [this, Vec3.zero_norm]; positivity
+    · -- gap band
+      have hg := so3_log_exp_gap eps x h0 h hpi hs
+      have hpos : 0 < x.norm := lt_of_le_of_lt h0 h
+      have hS0 : 0 < Real.sin (x.norm / 2) := Real.sin_pos_of_pos_of_lt_pi (by linarith) (by linarith)
+      have hS1 : Real.sin (x.norm / 2) ≤ x.norm / 2 := Real.sin_le (by linarith)
+      have hS2 : Real.sin (x.norm / 2) ≤ 1 / 4 := by linarith [not_lt.mp hs]
+      have hsc := Real.sin_sq_add_cos_sq (x.norm / 2)
+      have hC0 : 0 < Real.cos (x.norm / 2) := Real.cos_pos_of_mem_Ioo ⟨by linarith, by linarith⟩
+      have hC1 : Real.cos (x.norm / 2) ≤ 1 := Real.cos_le_one _
+      have hC2 : 15 / 16 ≤ Real.cos (x.norm / 2) := by nlinarith
+      rw [abs_of_pos hC0] at hg
+      have hC5 : (15 / 16 : ℝ) ^ 5 ≤ Real.cos (x.norm / 2) ^ 5 := pow_le_pow_left₀ (by norm_num) hC2 5
+      have hS5 : Real.sin (x.norm / 2) ^ 5 ≤ (x.norm / 2) ^ 5 := pow_le_pow_left₀ (le_of_lt hS0) hS1 5
+      have hden : 0 < 5 * Real.cos (x.norm / 2) ^ 5 := by positivity
+      refine le_trans hg ?_
+      rw [div_le_iff₀ hden]
+      have e : (x.norm / 2) ^ 5 = x.norm ^ 5 / 32 := by ring
+      rw [e] at hS5
+      have hnum : (0.72 : ℝ) ≤ (15 / 16 : ℝ) ^ 5 := by norm_num
+      nlinarith
+  · exact le_trans (so3_log_exp_small_norm eps x h0 (by linarith) h) (by linarith)
+
 /-! ## uniqueness of the logarithm in the principal ball, all four groups -/
 
 /-- on the open shell `eps < ‖x‖ < π` the closed-form exponential has `w = cos(‖x‖/2) > 0`: two such exponentials are never
@@ -1735,6 +1804,19 @@ example : ∃ δ : ℝ, (sim3LogExp (1 / 1000) (⟨⟨1, 2, 3⟩, ⟨1 / 2000, 0
   sim3_log_exp_small_unit (1 / 1000) (⟨⟨1, 2, 3⟩, ⟨1 / 2000, 0, 0⟩, 0⟩ : sim3 ℝ) (by norm_num) (by norm_num)
     (by show ¬ (1 / 1000 : ℝ) < (⟨1 / 2000, 0, 0⟩ : Vec3 ℝ).norm; rw [Vec3.norm_axis _ (by norm_num)]; norm_num)
     (by show ¬ (1 / 1000 : ℝ) < |(0 : ℝ)|; rw [abs_zero]; norm_num)
+
+example : ∃ δ : ℝ, rxso3LogExp (1 / 1000) (⟨⟨1 / 2000, 0, 0⟩, -3⟩ : rxso3 ℝ) = ⟨(⟨1 / 2000, 0, 0⟩ : Vec3 ℝ).smul (1 + δ), -3⟩ ∧
+    |δ| ≤ (⟨1 / 2000, 0, 0⟩ : Vec3 ℝ).normSq ^ 2 / 50 :=
+  rxso3_log_exp_small (1 / 1000) (⟨⟨1 / 2000, 0, 0⟩, -3⟩ : rxso3 ℝ) (by norm_num) (by norm_num)
+    (by show ¬ (1 / 1000 : ℝ) < (⟨1 / 2000, 0, 0⟩ : Vec3 ℝ).norm; rw [Vec3.norm_axis _ (by norm_num)]; norm_num)
+example : ((so3LogExp (1 / 1000) ⟨3 / 2000, 0, 0⟩).sub ⟨3 / 2000, 0, 0⟩).norm ≤ (⟨3 / 2000, 0, 0⟩ : Vec3 ℝ).norm ^ 5 / 40 :=
+  so3_log_exp_below_pi (1 / 1000) ⟨3 / 2000, 0, 0⟩ (by norm_num) (by norm_num)      -- a point of the gap band
+    (by rw [Vec3.norm_axis _ (by norm_num)]; nlinarith [Real.pi_gt_three])
+example : ((so3LogExp (1 / 1000) x1).sub x1).norm ≤ x1.norm ^ 5 / 40 :=
+  so3_log_exp_below_pi (1 / 1000) x1 (by norm_num) (by norm_num) x1_hi
+example : ((so3LogExp (1 / 1000) ⟨1 / 2000, 0, 0⟩).sub ⟨1 / 2000, 0, 0⟩).norm ≤ (⟨1 / 2000, 0, 0⟩ : Vec3 ℝ).norm ^ 5 / 50 :=
+  so3_log_exp_small_norm (1 / 1000) ⟨1 / 2000, 0, 0⟩ (by norm_num) (by norm_num)
+    (by rw [Vec3.norm_axis _ (by norm_num)]; norm_num)
 
 end NonVacuity
 
